@@ -12,24 +12,24 @@ from ..src import load, stmt_text
 
 LEVEL = "other"
 META = {
-    "text": "(1) NORMALISER: raw_field is interpreted abstractly over value kinds - ndarray, NumPy float64, other NumPy scalars, "
-            "builtin scalars, None, XGrid, enum members, dict-like objects, plain dataclasses, and tuples / lists / dicts / plain "
-            "dataclasses nested up to depth three over all of them: for every kind the branch that fires is determined from the "
-            "isinstance chain (with the real subtype relations, e.g. np.float64 is a float, np.int64 is not an int) and the "
-            "returned expression is classified; the result must be plain data (what a safe YAML dumper accepts). This decides "
-            "that every container branch recurses and that every NumPy scalar is cast, anywhere inside. (2) READER TABLE: "
-            "load_field / load_typing keep a branch for every kind the cards declare (NewType, Union/Optional, List/Generic "
-            "containers, tuple, ndarray, dict-like, enum by name or value, mapping -> keyword construction, scalar "
-            "constructor), and every annotation used by TheoryCard, OperatorCard, Configs, Debug, CouplingsInfo, HeavyInfo "
-            "and Metadata falls in one of these kinds; _raw serialises every dataclass field and _from_dict loads every field. "
-            "(3) XGRID: dump() and load() agree on their keys and raw_field consumes a key that dump() provides; whether the "
-            "logarithmic flag survives the raw form is decided (known finding). (4) DECLARED = USED: commons.interpolator is "
-            "partially evaluated with a symbolic card: the dispatcher is built from the card's grid, the card's "
-            "interpolation_is_log and the card's polynomial degree; every field of the cards is read somewhere in the runner's "
+    "text": "The repository's own serialiser and loader are partially evaluated on run-time types (sa/typemodel.py: host types and "
+            "typing constructs, repository classes, annotations evaluated the way dataclasses presents them). (1) NORMALISER: "
+            "raw_field is evaluated on a representative of every value kind - ndarray, NumPy float64 and integer scalars, built-in "
+            "scalars, None, an XGrid, an enum member, a card section, and tuples / lists / dicts / plain dataclasses nested up to "
+            "depth two (thorough: three) over all of them; the result must consist of built-in numbers, strings, booleans, None, "
+            "lists and dicts only (what a safe YAML dumper accepts). (2) READER: load_field(T, raw_field(v)) == v for every kind "
+            "the cards declare - scalars, Optional of each with None AND with the falsy value of the type (0, 0.0, False, '', []), "
+            "List, Tuple alias, NDArray, NewType, Union, enum by value and by name (unknown names refused), Optional[enum]; a real "
+            "section of the operator card (Configs) goes from_dict -> raw unchanged for variants that differ in falsy and optional "
+            "fields and with a defaulted field omitted; every annotation used by the cards and the metadata is of a kind the loader "
+            "handles. (3) XGRID: XGrid.load(x.dump()) returns grid and flag for logarithmic and linear grids; the raw form used by "
+            "the cards is followed through load_field: the grid survives, the logarithmic flag does not (known finding). (4) "
+            "DECLARED = USED: commons.interpolator is partially evaluated with a symbolic card: the dispatcher is built from the "
+            "card's grid, interpolation_is_log and polynomial degree; every field of the cards is read somewhere in the runner's "
             "call-graph closure (a declared setting nobody reads cannot be the one used).",
-    "note": "Equality of the re-loaded object relies on the typing machinery at run time; decided here are the normaliser (all "
-            "kinds), the reader's branch table and the wiring of the declared settings.",
-    "technique": "abstract interpretation of the normaliser over value kinds; writer/reader branch tables; PE of the interpolator construction; configuration liveness over the call graph",
+    "note": "Decided on representatives of each kind and on one real card section; complete theory / operator cards are not "
+            "evaluated (list-subclass references and NumPy grid construction are outside the evaluator's model).",
+    "technique": "partial evaluation of raw_field / load_field / from_dict on run-time types (host types, typing constructs, repository classes, evaluated annotations) over representatives of every value kind; PE of the interpolator construction; configuration liveness over the call graph",
     "engine": "sa",
 }
 
